@@ -665,7 +665,15 @@ func (vm *VM) run() (Addr, bool) {
 				// An invalid reflect.Value represents a nil interface value.
 				cond = !vm.general(a).IsValid()
 			case ConditionNil, ConditionNotNil:
-				cond = vm.general(a).IsNil()
+				v := vm.general(a)
+				cond = v.IsNil()
+				if !cond && v.Type() == callableType {
+					// A nil function value that comes from a native value,
+					// as a struct field, is a callable with a nil native
+					// function.
+					f := v.Interface().(*callable)
+					cond = f.fn == nil && f.native != nil && f.native.value.IsNil()
+				}
 			case ConditionEqual, ConditionNotEqual:
 				x := vm.general(a)
 				y := vm.generalk(c, op < 0)
